@@ -617,6 +617,228 @@ func runStaleCase(c staleCase) *fail {
 	return nil
 }
 
+// clientDied is the message recorded before a case whose failure mode may be the death of the process.
+const clientDied = "the process died inside the client (a panic on a goroutine of the caller): no call may crash, each must return an error"
+
+// --- a send fails while the reply to that very request is being received -----------------
+//
+// Call B is registered and blocked in its transport Write; the server (which
+// cannot know that) sends a frame carrying B's tag, and the goroutine that is
+// currently receiving (call A) has read its header and part of its body when
+// B's Write fails. Then the rest of the frame arrives. Nothing may crash or
+// hang, A must get its own data, and later calls must work.
+
+type withdrawCase struct {
+	Split int `json:"split"` // how many bytes of the frame with B's tag arrive before B's Write fails (7..frame length-1)
+	Later int `json:"later"`
+	// Early: instead, B's Write goes through but B is paused before the Write
+	// returns; the server's reply to B arrives (and is read by A, the current
+	// receiver) in the meantime. B must get that reply.
+	Early bool `json:"early,omitempty"`
+}
+
+func runWithdrawCase(c withdrawCase) *fail {
+	fk := peers.NewFake()
+	defer fk.Close()
+	next := func() (*refcodec.Msg, *fail) {
+		raw, err := fk.Next(20 * time.Second)
+		if err != nil {
+			return nil, failf("harness-withdraw", "HARNESS-ERROR no request: %v", err)
+		}
+		m, derr := refcodec.DecodeStrict(raw)
+		if derr != nil {
+			return nil, failf("harness-withdraw", "HARNESS-ERROR request %x: %v", raw, derr)
+		}
+		return m, nil
+	}
+	rgetattr := func(tag uint16, mark uint64) *refcodec.Msg {
+		return refcodec.New(refcodec.Rgetattr, tag, "valid", 0x3fff, "qid", refcodec.QID{Path: mark}, "attr", refcodec.Attr{})
+	}
+	type res struct {
+		path uint64
+		err  error
+	}
+	// version and attach are served by hand
+	clch := make(chan *p9.Client, 1)
+	go func() {
+		cl, err := p9.NewClient(fk.Client)
+		if err != nil {
+			clch <- nil
+			return
+		}
+		clch <- cl
+	}()
+	m, f := next()
+	if f != nil {
+		return f
+	}
+	fk.Reply(refcodec.New(refcodec.Rversion, m.Tag, "msize", m.U("msize"), "version", m.S("version")))
+	cl := <-clch
+	if cl == nil {
+		return failf("harness-newclient", "HARNESS-ERROR NewClient failed")
+	}
+	rootch := make(chan p9.File, 1)
+	go func() {
+		r, _ := cl.Attach("")
+		rootch <- r
+	}()
+	if m, f = next(); f != nil {
+		return f
+	}
+	fk.Reply(peers.GenericReply(m, 0))
+	root := <-rootch
+	if root == nil {
+		return failf("harness-attach", "HARNESS-ERROR attach failed")
+	}
+	defer runtime.KeepAlive(root)
+	start := func(mask uint16) chan res {
+		ch := make(chan res, 1)
+		go func() {
+			q, _, _, err := root.GetAttr(maskP(mask))
+			ch <- res{q.Path, err}
+		}()
+		return ch
+	}
+	wait := func(ch chan res, d time.Duration) (res, bool) {
+		select {
+		case r := <-ch:
+			return r, true
+		case <-time.After(d):
+			return res{}, false
+		}
+	}
+	// warm-up: A then B outstanding together, answered B first, then A, so that
+	// the tag pool hands out the same two tags in the same order next time
+	chA := start(1)
+	ma, f := next()
+	if f != nil {
+		return f
+	}
+	chB := start(2)
+	mb, f := next()
+	if f != nil {
+		return f
+	}
+	fk.Reply(rgetattr(mb.Tag, 0xb0))
+	if _, ok := wait(chB, 20*time.Second); !ok {
+		return failf("client-call-hangs:warm-up", "a plain call did not return")
+	}
+	fk.Reply(rgetattr(ma.Tag, 0xa0))
+	if _, ok := wait(chA, 20*time.Second); !ok {
+		return failf("client-call-hangs:warm-up", "a plain call did not return")
+	}
+	// A is outstanding and receiving
+	chA = start(3)
+	ma2, f := next()
+	if f != nil {
+		return f
+	}
+	if c.Early {
+		// a Tgetattr frame goes out in two Writes (header, body): pause after the second
+		entered, release := fk.Client.Out.PauseAfterWriteAt(fk.Client.Out.Writes() + 2)
+		defer release()
+		chB = start(4)
+		select {
+		case <-entered:
+		case <-time.After(20 * time.Second):
+			return failf("harness-withdraw", "HARNESS-ERROR the second call never reached its Write")
+		}
+		mb2, f := next()
+		if f != nil {
+			return f
+		}
+		out := fk.Srv.Out
+		fk.Reply(rgetattr(mb2.Tag, 0xb2))
+		if !out.WaitConsumed(out.Written(), 20*time.Second) {
+			return failf("harness-withdraw", "HARNESS-ERROR the receiving call did not take the reply")
+		}
+		time.Sleep(2 * time.Millisecond)
+		release()
+		rb, ok := wait(chB, 20*time.Second)
+		if !ok {
+			return failf("client-call-hangs:reply-before-write-returned", "a call whose reply arrived (and was read by the goroutine receiving at that moment) before its own Write had returned never came back")
+		}
+		if rb.err != nil || rb.path != 0xb2 {
+			return failf("reply-lost:reply-before-write-returned", "a call whose reply arrived before its own Write had returned got (%#x, %v), its request was answered with 0xb2", rb.path, rb.err)
+		}
+		fk.Reply(rgetattr(ma2.Tag, 0xa2))
+		ra, ok := wait(chA, 20*time.Second)
+		if !ok {
+			return failf("client-call-hangs:receiver", "the call that was receiving meanwhile never returned")
+		}
+		if ra.err != nil || ra.path != 0xa2 {
+			return failf("reply-lost:receiver", "the call that was receiving meanwhile got (%#x, %v), its request was answered with 0xa2", ra.path, ra.err)
+		}
+		return nil
+	}
+	// B registers and blocks in its Write
+	entered, release := fk.Client.Out.HoldWriteAt(fk.Client.Out.Writes() + 1)
+	defer release()
+	chB = start(4)
+	select {
+	case <-entered:
+	case <-time.After(20 * time.Second):
+		return failf("harness-withdraw", "HARNESS-ERROR the second call never reached its Write")
+	}
+	// the frame with B's (predicted) tag: header and a part of the body arrive
+	frame := refcodec.Encode(rgetattr(mb.Tag, 0xbad))
+	split := c.Split
+	if split < 7 {
+		split = 7
+	}
+	if split >= len(frame) {
+		split = len(frame) - 1
+	}
+	out := fk.Srv.Out
+	base := out.Written()
+	out.SetCredit(base + split)
+	fk.Send(frame)
+	if !out.WaitBlockedAt(base+split, 20*time.Second) {
+		return failf("harness-withdraw", "HARNESS-ERROR the receiving call did not take the first %d bytes", split)
+	}
+	// B's Write fails now
+	release()
+	rb, bReturned := wait(chB, 200*time.Millisecond)
+	// the rest of the frame arrives
+	out.SetCredit(-1)
+	if !bReturned {
+		var ok bool
+		if rb, ok = wait(chB, 20*time.Second); !ok {
+			return failf("client-call-hangs:failed-send", "the call whose Write failed never returned (a frame carrying its tag was being received at that moment)")
+		}
+	}
+	if rb.err == nil {
+		return failf("failed-send-succeeded", "the call whose request was never written returned success (marker %#x)", rb.path)
+	}
+	// A gets its own answer
+	fk.Reply(rgetattr(ma2.Tag, 0xa2))
+	ra, ok := wait(chA, 20*time.Second)
+	if !ok {
+		return failf("client-call-hangs:receiver", "the call that was receiving when a concurrent call failed to send never returned")
+	}
+	if ra.err == nil && ra.path != 0xa2 {
+		return failf("call-received-another-calls-data", "the receiving call read back marker %#x, its own request was answered with 0xa2", ra.path)
+	}
+	// later calls: each gets its own answer or an error, none hangs
+	for i := 0; i < c.Later; i++ {
+		ch := start(uint16(10 + i))
+		raw, err := fk.Next(2 * time.Second)
+		if err == nil {
+			if m, derr := refcodec.DecodeStrict(raw); derr == nil {
+				fk.Reply(rgetattr(m.Tag, uint64(0x1000+i)))
+			}
+		}
+		r, ok := wait(ch, 20*time.Second)
+		if !ok {
+			return failf("client-call-hangs:later", "call %d after the failed send never returned", i)
+		}
+		if r.err == nil && r.path != uint64(0x1000+i) {
+			return failf("call-received-another-calls-data", "later call %d read back marker %#x, its own request was answered with %#x", i, r.path, 0x1000+i)
+		}
+	}
+	return nil
+}
+
 // --- fid recycling: sequences of walk / close / remove with confirmed and refused outcomes ---
 
 type fidCase struct {
@@ -804,6 +1026,7 @@ func runPoolCase(c poolCase) *fail {
 func init() {
 	replayRegistrars = append(replayRegistrars, func() {
 		registerReplay("C10/batches", func(c muxCase) *fail { return runMuxCase(c, nil) })
+		registerReplay("C10/withdraw-race", runWithdrawCase)
 		registerReplay("C10/fids", runFidCase)
 		registerReplay("C10/stale-completion", runStaleCase)
 		registerReplay("C10/pool", runPoolCase)
@@ -865,7 +1088,9 @@ func TestC10(t *testing.T) {
 			for _, perm := range permutations(idx) {
 				c := muxCase{Calls: calls, Order: perm, After: 1}
 				st := &muxStats{}
+				h.Danger("batches", "client-panic", clientDied, c)
 				f := runMuxCase(c, st)
+				h.Safe()
 				h.Case(evid.HashJSON(c), st.nonFIFO && st.inFlight >= 2, "batches:every-permutation")
 				if h.report("batches", f, c) {
 					return
@@ -877,7 +1102,9 @@ func TestC10(t *testing.T) {
 			for k := 0; k <= 6; k++ {
 				c := muxCase{Calls: []string{"getattr", "walk", "getattr"}, Order: []int{2, 0, 1}, Fault: fault, K: k, After: 2}
 				st := &muxStats{}
+				h.Danger("batches", "client-panic", clientDied, c)
 				f := runMuxCase(c, st)
+				h.Safe()
 				h.Case(evid.HashJSON(c), st.faultWithPending, "batches:fault:"+fault)
 				if h.report("batches", f, c) {
 					return
@@ -890,7 +1117,9 @@ func TestC10(t *testing.T) {
 		return genMuxCase(rt, env.Pick(8, 64))
 	}, func(c muxCase) *fail {
 		st := &muxStats{}
+		h.Danger("batches", "client-panic", clientDied, c)
 		f := runMuxCase(c, st)
+		h.Safe()
 		h.Case(evid.HashJSON(c), (st.nonFIFO && st.inFlight >= 2) || st.faultWithPending, "batches:random:"+c.Fault)
 		if st.nonFIFO && st.inFlight >= 3 && h.WantSample("batches") {
 			h.Sample("batches", c)
@@ -901,7 +1130,9 @@ func TestC10(t *testing.T) {
 	for rep := 0; rep < env.Pick(40, 400)/env.NShards+1; rep++ {
 		for _, b := range []string{"unknown-tag", "garbage", "wrong-type"} {
 			c := staleCase{Later: 12, Bad: b}
+			h.Danger("stale-completion", "client-panic", clientDied, c)
 			f := runStaleCase(c)
+			h.Safe()
 			h.Case(evid.HashJSON(c)+uint64(rep)*7919+uint64(env.Shard), true, "stale-completion:"+b)
 			if f != nil && len(f.Sig) > 8 && f.Sig[:8] == "harness-" {
 				t.Errorf("HARNESS-ERROR %s", f.Msg)
@@ -910,6 +1141,36 @@ func TestC10(t *testing.T) {
 			if h.report("stale-completion", f, c) {
 				return
 			}
+		}
+	}
+	// a send fails while a frame carrying that call's tag is being received: every split point of the frame
+	if env.Shard == 0 {
+		n := len(refcodec.Encode(refcodec.New(refcodec.Rgetattr, 1, "valid", 0x3fff, "qid", refcodec.QID{}, "attr", refcodec.Attr{})))
+		for split := 7; split < n; split += env.Pick(6, 1) {
+			c := withdrawCase{Split: split, Later: 4}
+			h.Danger("withdraw-race", "client-panic", clientDied, c)
+			f := runWithdrawCase(c)
+			h.Safe()
+			h.Case(evid.HashJSON(c), true, "withdraw-race")
+			if f != nil && strings.HasPrefix(f.Sig, "harness-") {
+				t.Errorf("HARNESS-ERROR %s", f.Msg)
+				continue
+			}
+			if h.report("withdraw-race", f, c) {
+				return
+			}
+		}
+	}
+	if env.Shard == 0 {
+		c := withdrawCase{Early: true}
+		h.Danger("withdraw-race", "client-panic", clientDied, c)
+		f := runWithdrawCase(c)
+		h.Safe()
+		h.Case(evid.HashJSON(c), true, "reply-before-write-returned")
+		if f != nil && strings.HasPrefix(f.Sig, "harness-") {
+			t.Errorf("HARNESS-ERROR %s", f.Msg)
+		} else if h.report("withdraw-race", f, c) {
+			return
 		}
 	}
 	rapidCases(h, "fids", env.PerShard(env.Pick(1600, 100000)), func(rt *rapid.T) fidCase {
@@ -928,6 +1189,8 @@ func TestC10(t *testing.T) {
 		if len(c.Ops) > 5 && h.WantSample("fids") {
 			h.Sample("fids", c)
 		}
+		h.Danger("fids", "client-panic", clientDied, c)
+		defer h.Safe()
 		return runFidCase(c)
 	})
 }
